@@ -360,4 +360,48 @@ mod verif_kani {
     #[kani::proof]
     #[kani::unwind(10)]
     fn update_next_step_d2() { update_next_step(2); }
+
+    // read-only observers against the ideal tree (second opinion for the Verus-verified proof / verify / get / get_subtree_root)
+    fn observers_step(d: usize) {
+        let cap = 1usize << d;
+        let (t, leaves) = any_wf_tree(d);
+        let ideal = ideal_nodes(d, &leaves);
+        let i: usize = kani::any();
+        // get
+        let g = t.get(i);
+        if i >= cap { assert!(g.is_err(), "get/get-rejects-out-of-range"); } else { assert!(g.unwrap() == leaves[i], "get/get-returns-leaf"); }
+        assert!(t.root() == ideal[0], "root/root-is-ideal-root");
+        // get_subtree_root
+        let n: usize = kani::any();
+        let s = t.get_subtree_root(n, i);
+        if n > d || i >= cap { assert!(s.is_err(), "get_subtree_root/subtree-root-rejects-out-of-range"); }
+        else { assert!(s.unwrap() == ideal[(1usize << n) - 1 + (i >> (d - n))], "get_subtree_root/subtree-root-is-ideal-node"); }
+        // proof + verify
+        let p = t.proof(i);
+        if i >= cap { assert!(p.is_err(), "proof/proof-rejects-out-of-range"); }
+        else {
+            let p = p.unwrap();
+            assert!(p.0.len() == d, "proof/proof-one-sibling-per-level");
+            let mut k = 0;
+            while k < d {
+                let j = i >> k;
+                let sib = ideal[(1usize << (d - k)) - 1 + (j ^ 1)];
+                let ok = match p.0[k] { FullMerkleBranch::Left(v) => j & 1 == 0 && v == sib, FullMerkleBranch::Right(v) => j & 1 == 1 && v == sib };
+                assert!(ok, "proof/proof-is-ideal-path");
+                k += 1;
+            }
+            assert!(t.verify(&leaves[i], &p).unwrap(), "verify/verify-accepts-the-stored-leaf");
+            // an altered sibling is accepted only if it folds to the same root
+            let mut q = p.clone();
+            let lvl: usize = kani::any();
+            kani::assume(lvl < d);
+            let alt = TFr(kani::any());
+            q.0[lvl] = match q.0[lvl] { FullMerkleBranch::Left(_) => FullMerkleBranch::Left(alt), FullMerkleBranch::Right(_) => FullMerkleBranch::Right(alt) };
+            let acc = t.verify(&leaves[i], &q).unwrap();
+            assert!(acc == (q.compute_root_from(&leaves[i]) == ideal[0]), "verify/verify-accepts-iff-path-folds-to-root");
+        }
+    }
+    #[kani::proof]
+    #[kani::unwind(10)]
+    fn observers_step_d2() { observers_step(2); }
 }
